@@ -328,6 +328,36 @@ theorem none_default_equiv :
    ⟨rfl, SameMeaning.alt .pipe .anyOf (SameMeaning.scalar .builtin .cls .int) SameMeaning.none, rfl, rfl⟩,
    rfl, rfl, rfl, rfl, rfl, rfl, rfl, rfl⟩
 
+/-! ### default factories -/
+
+/-- A default factory (a callable) is kept as the field's default - evaluated for every instance - whether it
+    is given as `a: Integer = f`, `a: Integer(minimum=1) = f`, `a: list[int] = f`, `a: Optional[int] = f` or
+    `a = Integer(default=f)`: all are `FieldSame`-compatible, supported and elaborate to the same default. -/
+theorem factory_default_equiv :
+    let p : PyVal := .int 100
+    let a : FieldSp := annF fInt (.eqF p 9)
+    let b : FieldSp := { name := "a", mode := .assign, ty := .finst .int, dflt := .kwF p 9 }
+    FieldSame a b
+    ∧ fieldSupported noRe tm false a = true ∧ fieldSupported noRe tm false b = true
+    ∧ elabField noRe tm false a = .ok (.field (.integer {}) false (some factoryTag))
+    ∧ elabField noRe tm false b = elabField noRe tm false a
+    ∧ elabField noRe tm false (annF (.finst .int) (.eqF p 9)) = elabField noRe tm false a
+    ∧ elabField noRe tm false (annF (.pep585 .list (.builtin .int)) (.eqF (.list [.int 1]) 9))
+        = .ok (.field (.seqOf .list (.integer {}) {}) false (some factoryTag))
+    ∧ elabField noRe tm false (annF (.optional (.builtin .int)) (.eqF p 9))
+        = .ok (.field (.anyOf [.integer {}, .noneF]) false (some factoryTag)) :=
+  ⟨⟨rfl, SameMeaning.scalar .cls .inst .int, rfl, rfl⟩, rfl, rfl, rfl, rfl, rfl, rfl, rfl⟩
+
+/-- finding `default-factory-differs:default-factory-once` — with a builtin CLASS annotation (`a: int = f`,
+    `a: list = f`, `a: Any = f`) the factory is called at class definition and its (truthy) product becomes the
+    shared default of all instances, whereas `a: Integer = f` keeps the factory. -/
+theorem counterexample_factory_once :
+    FieldSame (annF (.builtin .int) (.eqF (.int 100) 9)) (annF fInt (.eqF (.int 100) 9))
+    ∧ elabField noRe tm false (annF (.builtin .int) (.eqF (.int 100) 9)) = .ok (.field (.integer {}) false (some (.int 100)))
+    ∧ elabField noRe tm false (annF fInt (.eqF (.int 100) 9)) = .ok (.field (.integer {}) false (some factoryTag))
+    ∧ fieldSupported noRe tm false (annF (.builtin .int) (.eqF (.int 100) 9)) = false :=
+  ⟨⟨rfl, SameMeaning.scalar .builtin .cls .int, rfl, rfl⟩, rfl, rfl, rfl⟩
+
 /-! ### single-argument tuple forms -/
 
 /-- `t: tuple[int]`, `t: typing.Tuple[int]`, `t: Tuple[Integer]`, `t = Tuple(items=Integer)` and
